@@ -176,6 +176,14 @@ class Fn:
                     self._succ.append([t['t']])
                 elif k == 'call':
                     self._succ.append([t['t']] if t['t'] >= 0 else [])
+                elif k == 'switch' and self._const_discr(t['discr']) is not None:
+                    # compile-time decided branch (cfg!(..), const generics): only the live edge
+                    v = self._const_discr(t['discr'])
+                    live = t['otherwise']
+                    for val, tg in t['targets']:
+                        if int(val) == v:
+                            live = tg
+                    self._succ.append([live])
                 elif k == 'switch':
                     s = []
                     for _, tg in t['targets']:
@@ -187,6 +195,29 @@ class Fn:
                 else:
                     self._succ.append([])
         return self._succ[b]
+
+    def _const_discr(self, op):
+        """value of a switch discriminant that is a compile-time constant (directly or through one temporary)"""
+        if op.get('k') == 'const':
+            return int(op['c']['bits']) if 'bits' in op['c'] else None
+        if op.get('k') in ('copy', 'move') and not op['place']['p']:
+            l = op['place']['l']
+            if 1 <= l <= self.arg_count:
+                return None
+            defs = []
+            for blk in self.blocks:
+                if blk['cleanup']:
+                    continue
+                for st in blk['stmts']:
+                    if st['place']['l'] == l:
+                        defs.append(st)
+                tt = blk['term']
+                if tt['k'] == 'call' and tt['dest']['l'] == l:
+                    return None
+            if len(defs) == 1 and not defs[0]['place']['p'] and defs[0]['rv']['k'] == 'use' and defs[0]['rv']['o'].get('k') == 'const' \
+                    and 'bits' in defs[0]['rv']['o']['c']:
+                return int(defs[0]['rv']['o']['c']['bits'])
+        return None
 
     def pred(self, b):
         if self._pred is None:
